@@ -269,6 +269,14 @@ Theorem C09_F2_witness_orders_agree :
                /\ Vd w_defs 3 m' (JArr [JStr (ulit "a"); JStr (ulit "b")]) = true.
 Proof. exact f2_witness_orders_agree. Qed.
 
+(* the fragment lies inside the complement of the decidable class of finding F1 (`integer` and `number` both occur
+   in the pair): [tx] is the absent one *)
+Theorem C09_obj_frag_excludes_Known_F1 :
+  forall (wa tm : bool) (tx : itype) (a b : schema),
+    tx = TNumber \/ tx = TInteger ->
+    obj_frag wa tm tx a = true -> obj_frag wa tm tx b = true -> Known_F1 a b = false.
+Proof. exact obj_frag_not_Known_F1. Qed.
+
 (* exactness fails for an explicit `maxItems: 0` next to a tuple conflict (replayed on verif::merge_all:
    allOf[{items:[string,integer],maxItems:0},{items:[string,string]}] merges to {items:[string],maxItems:1}) *)
 Theorem C09_merge_exact_refuted_maxitems0 :
